@@ -209,6 +209,9 @@ func (x *Exec) VerifyFunc(key string, fc *FuncContract) (err error) {
 					i++
 				}
 			}
+			for _, r := range ff.Results {
+				ctx.ResultAlias = append(ctx.ResultAlias, r.Name)
+			}
 			for _, g := range ff.Ghost {
 				if g == "holds shard" {
 					st.held = append(st.held, heldLock{ID: Var("callerlock", SInt), Level: 1, Write: true, Desc: "elem:held-by-caller"})
@@ -237,6 +240,20 @@ func (x *Exec) VerifyFunc(key string, fc *FuncContract) (err error) {
 			}
 			if v, ok := x.specEval(env, e).(IntV); ok {
 				st.assumeRaw(Eq(st.ghostInt("jsize"), v.T))
+			}
+		}
+	}
+	// "ghost jexp-is <expr>": in this callback implementation the janitor's view of the expiry of
+	// the entry stored for the parameter key (ghost jexp(key) of the callback contracts) is <expr>
+	for _, g := range fc.Ghost {
+		if strings.HasPrefix(g, "jexp-is ") {
+			e, err := ParseSpec(strings.TrimPrefix(g, "jexp-is "))
+			if err != nil {
+				return fmt.Errorf("%s: jexp-is: %v", key, err)
+			}
+			kv, okk := env.vars["key"]
+			if v, ok := x.specEval(env, e).(IntV); ok && okk {
+				st.assumeRaw(Eq(Select(st.ghostArr("jexp", SInt), x.keyTerm(st, kv)), v.T))
 			}
 		}
 	}
@@ -280,6 +297,10 @@ func (x *Exec) atReturn(fr *Frame, st *State, ctx *FuncCtx, sig *types.Signature
 		env.vars[fmt.Sprintf("result%d", i)] = v
 		if i == 0 {
 			env.vars["result"] = v
+		}
+		if i < len(ctx.ResultAlias) && ctx.ResultAlias[i] != "" {
+			// the names the function-field contract gives its results
+			env.vars[ctx.ResultAlias[i]] = v
 		}
 		results[name] = v
 	}
